@@ -12,12 +12,15 @@
 import MxModel.Gen.KFarmToken
 import MxModel.Props.KMath
 import MxModel.Core.Farm
+import MxModel.Lemmas.KTactic
 
 namespace Mx.KFarmToken
 open Mx Mx.Gen Mx.Farm
 
 /-- source `get_total_supply` of the attributes is `current_farm_amount` -/
-theorem get_total_supply_eq (amt : Nat) : KFarmToken.get_total_supply amt = some amt := rfl
+theorem get_total_supply_eq (amt : Nat) : KFarmToken.get_total_supply amt = some amt := by
+  k_defs [KFarmToken.get_total_supply]
+  first | rfl | k_solve
 
 /-- source `rule_of_three(current_supply, full_value)`: the full value for the full supply,
     otherwise `⌊full_value · current_supply / total_supply⌋`; aborts exactly on a zero total supply
@@ -25,50 +28,27 @@ theorem get_total_supply_eq (amt : Nat) : KFarmToken.get_total_supply amt = some
 theorem rule_of_three_eq (x full total : Nat) :
     KFarmToken.rule_of_three x full total =
       if x = total then some full else if total = 0 then none else some (full * x / total) := by
-  by_cases h : x = total
-  · simp only [KFarmToken.rule_of_three, KFarmToken.get_total_supply, if_pos h, Option.bind_eq_bind,
-      Option.bind_some, Option.pure_def]
-  · by_cases h0 : total = 0
-    · simp only [KFarmToken.rule_of_three, KFarmToken.get_total_supply, if_neg h, div?, if_pos h0,
-        Option.bind_eq_bind, Option.bind_some, Option.pure_def]
-    · simp only [KFarmToken.rule_of_three, KFarmToken.get_total_supply, if_neg h, div?, if_neg h0,
-        Option.bind_eq_bind, Option.bind_some, Option.pure_def]
+  k_defs [KFarmToken.rule_of_three, get_total_supply_eq]
+  k_solve
 
 /-- source `rule_of_three_non_zero_result` additionally aborts on a zero result ("Zero amount") -/
 theorem rule_of_three_non_zero_result_eq (x full total r : Nat) :
     KFarmToken.rule_of_three_non_zero_result x full total = some r ↔
       KFarmToken.rule_of_three x full total = some r ∧ r ≠ 0 := by
-  simp only [KFarmToken.rule_of_three_non_zero_result, Option.bind_eq_bind, Option.pure_def]
+  k_defs [KFarmToken.rule_of_three_non_zero_result]
   cases KFarmToken.rule_of_three x full total with
   | none => simp
   | some v =>
-    by_cases hv : v = 0
-    · simp only [Option.bind_some, if_pos hv, Option.some.injEq]
-      constructor
-      · intro h; cases h
-      · rintro ⟨rfl, h⟩; exact absurd hv h
-    · simp only [Option.bind_some, if_neg hv, Option.some.injEq]
-      constructor
-      · rintro rfl; exact ⟨rfl, hv⟩
-      · rintro ⟨rfl, _⟩; rfl
+    simp only [Option.bind_some]
+    split_ifs <;> simp_all <;> omega
 
 /-- source `into_part(payment_amount)` IS the model's `Attr.intoPart` on the two fields it writes
     (`compounded_reward`, `current_farm_amount`): whole token for the full amount, rule of three
     (floor) otherwise, abort exactly when the model fails (zero-amount token, different part) -/
 theorem into_part_eq (a : Attr) (x : Nat) :
     KFarmToken.into_part x a.comp a.amt = (a.intoPart x).map (fun p => (p.comp, p.amt)) := by
-  by_cases h : x = a.amt
-  · simp only [KFarmToken.into_part, KFarmToken.get_total_supply, Attr.intoPart, if_pos h,
-      Option.bind_eq_bind, Option.bind_some, Option.pure_def, Option.map_some]
-  · by_cases h0 : a.amt = 0
-    · have h0' : ¬ a.amt ≠ 0 := fun c => c h0
-      simp only [KFarmToken.into_part, KFarmToken.get_total_supply, rule_of_three_eq, Attr.intoPart,
-        if_neg h, if_pos h0, req, if_neg h0', Option.bind_eq_bind, Option.bind_some,
-        Option.pure_def, Option.bind_none, Option.map_none]
-    · have h0' : a.amt ≠ 0 := h0
-      simp only [KFarmToken.into_part, KFarmToken.get_total_supply, rule_of_three_eq, Attr.intoPart,
-        if_neg h, if_neg h0, req, if_pos h0', Option.bind_eq_bind, Option.bind_some,
-        Option.pure_def, Option.map_some]
+  k_defs [KFarmToken.into_part, Attr.intoPart, get_total_supply_eq, rule_of_three_eq]
+  k_solve
 
 /-- `into_part` leaves index, entering epoch and original owner alone (the source's literal copies
     them from `self`; the translation does not list them among the written fields) -/
@@ -88,15 +68,9 @@ theorem intoPart_frame {a p : Attr} {x : Nat} (h : a.intoPart x = some p) :
 theorem merge_with_eq (a b : Attr) :
     KFarmToken.merge_with a.comp a.amt a.epoch a.rps b.comp b.amt b.epoch b.rps =
       (a.mergeWith b).map (fun m => (m.comp, m.amt, m.epoch, m.rps)) := by
-  by_cases h : a.amt + b.amt = 0
-  · have h' : ¬ a.amt + b.amt ≠ 0 := fun c => c h
-    simp only [KFarmToken.merge_with, KFarmToken.get_total_supply, Mx.KMath.weighted_average_round_up_eq,
-      Attr.mergeWith, if_pos h, req, if_neg h', Option.bind_eq_bind, Option.bind_some,
-      Option.pure_def, Option.bind_none, Option.map_none]
-  · have h' : a.amt + b.amt ≠ 0 := h
-    simp only [KFarmToken.merge_with, KFarmToken.get_total_supply, Mx.KMath.weighted_average_round_up_eq,
-      Attr.mergeWith, if_neg h, req, if_pos h', Option.bind_eq_bind, Option.bind_some,
-      Option.pure_def, Option.map_some]
+  k_defs [KFarmToken.merge_with, Attr.mergeWith, get_total_supply_eq,
+    Mx.KMath.weighted_average_round_up_eq, weightedAvgRoundUp, ceilDiv]
+  k_solve
 
 /-- `merge_with` keeps the original owner of the left operand -/
 theorem mergeWith_frame {a b m : Attr} (h : a.mergeWith b = some m) : m.owner = a.owner := by
@@ -108,11 +82,8 @@ theorem mergeWith_frame {a b m : Attr} (h : a.mergeWith b = some m) : m.owner = 
 /-- source `get_initial_farming_tokens` = `current_farm_amount − compounded_reward` (checked) -/
 theorem get_initial_farming_tokens_eq (comp amt : Nat) :
     KFarmToken.get_initial_farming_tokens comp amt = if amt < comp then none else some (amt - comp) := by
-  by_cases h : comp ≤ amt
-  · have h' : ¬ amt < comp := by omega
-    simp only [KFarmToken.get_initial_farming_tokens, sub?, if_pos h, if_neg h']
-  · have h' : amt < comp := by omega
-    simp only [KFarmToken.get_initial_farming_tokens, sub?, if_neg h, if_pos h']
+  k_defs [KFarmToken.get_initial_farming_tokens]
+  k_solve
 
 example : KFarmToken.into_part 30 10 100 = some (3, 30) := by decide
 example : KFarmToken.into_part 100 10 100 = some (10, 100) := by decide
